@@ -1237,14 +1237,14 @@ def selftest():
 
 
 SUBS = [
-    Sub("roundtrip_local", roundtrip_local_strategy, run_roundtrip_local, dict(quick=1600, thorough=16000),
-        budget_s=dict(quick=12, thorough=130), fixed_cases=local_fixed),
-    Sub("roundtrip_global", roundtrip_global_strategy, run_roundtrip_global, dict(quick=2400, thorough=24000),
-        budget_s=dict(quick=14, thorough=160), fixed_cases=roundtrip_fixed),
-    Sub("polynomials", polynomials_strategy, run_polynomials, dict(quick=2400, thorough=24000),
-        budget_s=dict(quick=12, thorough=130)),
+    Sub("roundtrip_local", roundtrip_local_strategy, run_roundtrip_local, dict(quick=1600, thorough=20000),
+        budget_s=dict(quick=11, thorough=130), fixed_cases=local_fixed),
+    Sub("roundtrip_global", roundtrip_global_strategy, run_roundtrip_global, dict(quick=2400, thorough=30000),
+        budget_s=dict(quick=12, thorough=160), fixed_cases=roundtrip_fixed),
+    Sub("polynomials", polynomials_strategy, run_polynomials, dict(quick=2400, thorough=30000),
+        budget_s=dict(quick=11, thorough=130)),
     Sub("interpolate_grid", interpolate_grid_strategy, run_interpolate_grid, dict(quick=320, thorough=3200),
-        budget_s=dict(quick=5, thorough=40)),
-    Sub("basis", basis_strategy, run_basis, dict(quick=6400, thorough=64000),
-        budget_s=dict(quick=10, thorough=100)),
+        budget_s=dict(quick=7, thorough=40)),
+    Sub("basis", basis_strategy, run_basis, dict(quick=6400, thorough=80000),
+        budget_s=dict(quick=9, thorough=100)),
 ]
